@@ -99,6 +99,7 @@ func (e *Engine) Clean(d int) {
 		if e.Opt.CrashPoints {
 			e.crashEnum(in, img0, journal, "clean")
 		}
+		in.SavedTip = in.M.Tip
 	}
 }
 
@@ -158,6 +159,7 @@ func (e *Engine) saveOne(in *Inst, enumerate bool) bool {
 		e.crashEnum(in, img0, journal, "save")
 	}
 	in.SavedWork = new(big.Int).Set(in.M.Tip.Cum)
+	in.SavedTip = in.M.Tip
 	in.ReorgSinceSave = false
 	return true
 }
@@ -219,7 +221,7 @@ func (e *Engine) Reload(d int, twin bool) {
 		}
 	}
 	ni := &Inst{Name: fmt.Sprintf("loaded%d", e.Stats["reload"]), Repo: repo, Store: st, M: nm,
-		SavedWork: new(big.Int).Set(src.SavedWork), BI: cloneBI(e.bi(src))}
+		SavedWork: new(big.Int).Set(src.SavedWork), BI: cloneBI(e.bi(src)), SavedTip: nm.Tip}
 	ni.Snap = e.snap(ni)
 
 	// C11: loaded reports the same as the original
@@ -432,7 +434,6 @@ func keyKind(k string) string {
 }
 
 func (e *Engine) crashEnum(in *Inst, img0 map[string][]byte, j []common.JournalOp, opname string) {
-	m := in.M
 	e.Crash.Ops++
 	for n := 0; n <= len(j); n++ {
 		next := "complete"
@@ -450,12 +451,53 @@ func (e *Engine) crashEnum(in *Inst, img0 map[string][]byte, j []common.JournalO
 		}
 		e.Crash.Images++
 		e.Crash.ByKind[opname+":"+next]++
+		// the production Load and, in histories that prune through the hook, the same load step
+		// with the history's depth (what Load does once the chain is longer than 10000 headers:
+		// the pruned part of the best chain must then come from the main-chain files)
+		depths := []int{0}
+		if e.Trace.HookDepth > 0 {
+			depths = append(depths, e.Trace.HookDepth)
+		}
+		for _, depth := range depths {
+			e.crashLoad(in, img, depth, n, len(j), opname, next)
+		}
+	}
+}
+
+func (e *Engine) crashLoad(in *Inst, img map[string][]byte, depth, n, nj int, opname, next string) {
+	m := in.M
+	j := make([]struct{}, nj)
+	for once := true; once; once = false {
 		st := common.FromImage(img)
 		repo := headers.NewRepository(e.Cfg, st)
 		repo.DisableDifficulty()
 		var err error
-		pan := safe(func() { err = repo.Load(e.Ctx) })
+		pan := safe(func() {
+			if depth > 0 {
+				err = repo.VerifLoad(e.Ctx, depth)
+			} else {
+				err = repo.Load(e.Ctx)
+			}
+		})
 		feat := fmt.Sprintf("%s/next-unwritten=%s/reorg-since-save=%v", opname, next, in.ReorgSinceSave)
+		deep := false
+		if depth > 0 {
+			e.Crash.ByKind["loads-with-hook-depth"]++
+			feat += "/load-depth=hook"
+		}
+		// a reorganisation since the storage was last written completely whose fork point lies
+		// below the height the load prunes the stored best chain to (i.e. deeper than the prune
+		// depth): the branch files still describe the old chain, the main-chain files the new one
+		if in.SavedTip != nil && in.ReorgSinceSave {
+			d := depth
+			if d == 0 {
+				d = prodPruneDepth
+			}
+			if f := forkPoint(in.SavedTip, m.Tip); f != nil && f.Height < in.SavedTip.Height-d {
+				deep = true
+				feat += "/reorg-deeper-than-prune-depth"
+			}
+		}
 		if pan != "" || err != nil {
 			e.Crash.LoadErrs++
 			e.fail("C12", "load-succeeds", "crash-load-fails/"+errKind(pan, err)+"/"+feat,
@@ -494,8 +536,15 @@ func (e *Engine) crashEnum(in *Inst, img0 map[string][]byte, j []common.JournalO
 			}
 		}
 		if bad != "" {
-			e.fail("C12", "loaded-chain-is-linked-accepted-chain", "crash-chain-"+bad+"/"+feat,
-				fmt.Sprintf("crash after %d of %d storage ops of %s: loaded best chain %s (tip h=%d)", n, len(j), opname, bad, s.Height))
+			sig := "crash-chain-" + bad + "/" + feat
+			if deep {
+				// one signature per symptom for this history class (see known_findings.json): where the
+				// Save was cut and which load depth was used are in the detail text
+				sig = "crash-chain-" + bad + "/reorg-deeper-than-prune-depth"
+				e.Crash.ByKind["images-after-reorg-deeper-than-prune-depth-with-unsound-chain"]++
+			}
+			e.fail("C12", "loaded-chain-is-linked-accepted-chain", sig,
+				fmt.Sprintf("crash after %d of %d storage ops of %s [%s]: loaded best chain %s (tip h=%d)", n, len(j), opname, feat, bad, s.Height))
 			continue
 		}
 		tn := m.Ever[s.Last]
@@ -515,4 +564,19 @@ func (e *Engine) crashEnum(in *Inst, img0 map[string][]byte, j []common.JournalO
 				fmt.Sprintf("crash after %d of %d ops of %s: loaded work %s < tip work at last completed Save %s", n, len(j), opname, s.Work, in.SavedWork.Text(16)))
 		}
 	}
+}
+
+// forkPoint is the deepest common ancestor of two nodes.
+func forkPoint(a, b *Node) *Node {
+	for a != nil && b != nil && a != b {
+		if a.Height >= b.Height {
+			a = a.Parent
+		} else {
+			b = b.Parent
+		}
+	}
+	if a == b {
+		return a
+	}
+	return nil
 }
